@@ -1,8 +1,11 @@
 package tax
 
 import (
+	"fmt"
+
 	"github.com/invopop/gobl/l10n"
 	"github.com/invopop/jsonschema"
+	"github.com/invopop/validation"
 )
 
 // Regime defines a structure that can be embedded inside another structure to enable
@@ -42,6 +45,20 @@ func (r Regime) RegimeDef() *RegimeDef {
 // IsEmpty returns true if the regime is empty.
 func (r Regime) IsEmpty() bool {
 	return r.Country.Empty()
+}
+
+// Validate ensures that the regime country code, when set, refers to a tax
+// regime that is actually defined.
+func (r Regime) Validate() error {
+	if r.IsEmpty() {
+		return nil
+	}
+	if r.RegimeDef() == nil {
+		return validation.Errors{
+			"$regime": fmt.Errorf("regime '%v' not defined", r.Country),
+		}
+	}
+	return nil
 }
 
 // JSONSchemaExtend will add the addon options to the JSON list.
